@@ -84,7 +84,7 @@ def term_const(crate, t):
 
 def loc(bv, bi):
     sp = bv.blocks[bi]["t"]["sp"]
-    return "%s:%d" % (sp["f"], sp["l"])
+    return "%s:%d" % (sp.get("f", "?"), sp.get("l", 0))
 
 
 import re
